@@ -3,6 +3,7 @@ package rules
 import (
 	"fmt"
 	"go/token"
+	"go/types"
 	"regexp"
 	"strings"
 
@@ -473,6 +474,72 @@ func runC13(c *core.Ctx) core.Meta {
 		}
 	}
 
+	// ---------------- R13.4 symbols are selected by their exact name ----------------
+	st4 := c.Rule("R13.4", "in every function of the loader that is given the kernel's name, a symbol's name is used only in equality comparisons with that name or with that name plus a constant suffix; prefix / suffix / substring matching would also select the symbols of other kernels in the file, and the result would depend on them", 4)
+	for _, fn := range pi.Funcs {
+		var kname *ssa.Parameter
+		for _, prm := range fn.Params {
+			if prm.Name() == "kernelName" {
+				kname = prm
+			}
+		}
+		if kname == nil {
+			continue
+		}
+		for _, b := range fn.Blocks {
+			for _, in := range b.Instrs {
+				// loads of elf.Symbol.Name
+				v, ok := in.(ssa.Value)
+				if !ok {
+					continue
+				}
+				f := core.LoadedField(v)
+				if fl, isF := in.(*ssa.Field); isF {
+					f = fieldOfStruct(fl.X.Type(), fl.Field)
+				}
+				if f == nil || f.Name() != "Name" || !strings.HasSuffix(namedTypeName(f.Type()), "string") {
+					continue
+				}
+				if owner := fieldOwner(v); owner != "elf.Symbol" {
+					continue
+				}
+				refs := v.Referrers()
+				if refs == nil {
+					continue
+				}
+				for _, r := range *refs {
+					st4.Instances++
+					c.MarkAnalysed(fn)
+					okUse := false
+					why := core.InstrString(r)
+					switch t := r.(type) {
+					case *ssa.BinOp:
+						if t.Op == token.EQL || t.Op == token.NEQ {
+							other := t.X
+							if other == v {
+								other = t.Y
+							}
+							pv := lp.Of(other)
+							okUse = strings.Contains(pv, "param:kernelName") || pv == `""`
+							why = "compared with " + short(pv)
+						}
+					case *ssa.Store, *ssa.Phi, *ssa.MakeInterface, *ssa.DebugRef:
+						okUse = true // kept / printed, not a selection
+					case *ssa.Call:
+						if cf := core.CalleeFunc(t); cf != nil && cf.Pkg() != nil && (cf.Pkg().Path() == "log" || cf.Pkg().Path() == "fmt") {
+							okUse = true
+						}
+					}
+					st4.Ob(okUse)
+					st4.Sample("%s: symbol name %s", core.FuncName(fn), why)
+					if !okUse {
+						c.ReportAt("R13.4", fn, r.Pos(), "symbol-name:inexact-match", "a symbol's name is "+why+" instead of being compared for equality with the requested kernel's name (plus a constant suffix): symbols of other kernels whose names share a prefix or suffix are selected too, so the loaded metadata depends on the other kernels in the file")
+					}
+				}
+			}
+		}
+	}
+
 	// ---------------- R13.3 precedence & R13.4 selection ----------------
 	st3 := c.Rule("R13.3", "in the symbol path the header sniffing fallback is reachable only where no V5 descriptor was found; 256 bytes are stripped only where isV2V3Header held; the kernel bytes are exactly the symbol's range of .text; the object returned for a name is built from the symbol with that name only", 6)
 	if fn := c.MustFunc("R13.3", instsPkg, "loadKernelCodeObjectFromELF"); fn != nil {
@@ -592,4 +659,28 @@ func runC13(c *core.Ctx) core.Meta {
 		Explanation: "Loading decided against an external oracle, the published amd_kernel_code_t and kernel_descriptor_t layouts transcribed as offset/width tables: every metadata read of both parsers and of the header sniffer is compared with its table row (offset, width, slice width, flag bit), bounds of the parsers against what their callers establish, precedence of the V5 descriptor over header sniffing, stripping only under a positive sniff, kernel bytes = the named symbol's range of .text, descriptor selected by name+\".kd\", size 64, inside .rodata.",
 		NotDecided:  "ELF parsing (debug/elf), the register-count override arithmetic from metadata symbols, the V5 policy overrides of rsrc2 and SGPR enables",
 		Assumptions: append([]string{"the transcribed layouts follow the LLVM AMDGPU usage document (amd_kernel_code_t; kernel_descriptor_t with compute_pgm_rsrc3/1/2 at bytes 44/48/52 and kernel_code_properties at 56)"}, commonAssumptions...)}
+}
+
+// fieldOfStruct: the i-th field of a (pointer to) struct type.
+func fieldOfStruct(t types.Type, i int) *types.Var {
+	if p, ok := t.Underlying().(*types.Pointer); ok {
+		t = p.Elem()
+	}
+	if st, ok := t.Underlying().(*types.Struct); ok && i < st.NumFields() {
+		return st.Field(i)
+	}
+	return nil
+}
+
+// fieldOwner: "pkg.Type" of the struct a field value was taken from.
+func fieldOwner(v ssa.Value) string {
+	switch t := v.(type) {
+	case *ssa.Field:
+		return namedTypeName(t.X.Type())
+	case *ssa.UnOp:
+		if fa, ok := t.X.(*ssa.FieldAddr); ok {
+			return namedTypeName(fa.X.Type())
+		}
+	}
+	return ""
 }
